@@ -26,7 +26,7 @@ struct Ver {
    n: INone,
 }
 
-fn dump(v: &Ver, dom: u32) -> Vec<u64> {
+fn dump(v: &Ver, dom: u32) -> Vec<i64> {
    let d1 = dom + 1;
    let mut out = vec![];
    // full index [0, 1]
@@ -52,9 +52,9 @@ fn dump(v: &Ver, dom: u32) -> Vec<u64> {
             all.add(0, *k.0, *k.1);
          }
       }
-      out.push(get.masks[0]);
-      out.push(badcnt);
-      out.push(ck.masks[0]);
+      out.push(get.masks[0] as i64);
+      out.push(badcnt as i64);
+      out.push(ck.masks[0] as i64);
       all.out(&mut out);
    }
    // [0]: key = column 0, value = column 1
@@ -75,7 +75,7 @@ fn dump(v: &Ver, dom: u32) -> Vec<u64> {
             all.add(0, k.0, *y);
          }
       }
-      out.push(some);
+      out.push(some as i64);
       get.out(&mut out);
       all.out(&mut out);
    }
@@ -97,7 +97,7 @@ fn dump(v: &Ver, dom: u32) -> Vec<u64> {
             all.add(0, *x, k.0);
          }
       }
-      out.push(some);
+      out.push(some as i64);
       get.out(&mut out);
       all.out(&mut out);
    }
@@ -117,7 +117,7 @@ fn dump(v: &Ver, dom: u32) -> Vec<u64> {
             all.add(0, *x, *y);
          }
       }
-      out.push(some);
+      out.push(some as i64);
       get.out(&mut out);
       all.out(&mut out);
    }
